@@ -164,8 +164,15 @@ CLAIMS = {
           "an error gives exactly the fresh story; and step_panic_sites: a step of the interpreter model can end in a "
           "panic only at one of 8 named sites (9 for a whole continue step), each an unwrap of the Rust that an "
           "invariant of loaded trees / call stacks makes unreachable (listed with its invariant in corpus/c15/SITES.md) "
-          "— after 35 former panic sites were turned into story errors in /repo and in the model. NOT proved "
-          "(partial): that those 9 residual sites are unreachable (the invariants are argued, not proved); decided by "
+          "— after 35 former panic sites were turned into story errors in /repo and in the model. Those invariants are "
+          "now proved, too (Proofs/C04Inv.lean, Proofs/C04Ptr.lean, 5000 lines): every thread of every flow, snapshot "
+          "and pending choice has a non-empty call stack (established by construction and by every accepted load, kept "
+          "by every public operation), the loaded tree's root is a container and every divert has a target or a "
+          "variable name (established by the story loader), four sites are excluded by the control flow of the step "
+          "alone; together loaded_reachable_never_panics: for every document the loader accepts and every story "
+          "reachable from it through the public operations, continue_single_step does not end in a panic at any "
+          "site. Partial in this sense only: the theorems are about the model; that the Rust has no further panic "
+          "site is decided by "
           "the oracle: hand-written documents that used to panic, fault-prone "
           "expression trees, fault-prone generated programs, reproducers of past panics and token-level mutants of "
           "the conformance corpus under random histories, on debug and release builds (no panic, faults reported, "
@@ -181,7 +188,7 @@ CLAIMS = {
           "loop for ever) yields the same log of lines, tags, choices, end status and final globals; for 105 pairs "
           "the exploration is complete, i.e. the theorem covers all choice paths. The theorems are closed by "
           "native_decide (declared in the trusted base). The Intercept (2 x 160 kB, depth 4) has no theorem and is "
-          "decided by oracle + tie only (depth 6; 8 in the thorough tier). The 9 pairs that differed when the check "
+          "decided by oracle + tie only (depth 6; 8 in the thorough tier; plus random playthroughs of both documents in lockstep to the end for every pair the exhaustive exploration cannot finish). The 9 pairs that differed when the check "
           "was first run (compiler deviations in choice text, glue after a divert, label scope, a lost line break) "
           "have been repaired in /repo; every pair now agrees. Tie: the same exploration on the real runtime "
           "(branching by save/load) equals the model's log for both documents. Oracle: real logs of the two "
